@@ -418,6 +418,7 @@ class Compiler:
     self.sim = sim
     self.strict = strict
     self.cast_self = cast_self
+    self.nofast = False         # debugging aid: always use the general select closures
     self.reads = None           # set of Sym read by the process being compiled
     self.writes = None          # set of Sym written by the process being compiled
     self.constmemo = design.constmemo
@@ -747,7 +748,7 @@ class Compiler:
       v = (vals[k0] >> soff) & m
       return lambda: v
 
-    if not udyn and not pdyn and pfn is None:
+    if not udyn and not pdyn and pfn is None and not self.nofast:
       if soff == 0 and width == sym.width:
         rd = lambda: vals[k0]
       else:
@@ -762,7 +763,7 @@ class Compiler:
 
     oob = sim.oob_reads if sim is not None else set()
     if len(udyn) == 1 and not pdyn and pfn is None and udyn[0][4] == 1 and k0 == 0 \
-       and soff == 0 and width == sym.width and und is None:
+       and soff == 0 and width == sym.width and und is None and not self.nofast:
       f, l, asc, size, stride = udyn[0]
       if asc:
         def rd():
@@ -780,7 +781,7 @@ class Compiler:
           return 0
       return rd
 
-    if not udyn and len(pdyn) == 1 and pfn is None and und is None:
+    if not udyn and len(pdyn) == 1 and pfn is None and und is None and not self.nofast:
       f, lo, hi, stride = pdyn[0]
       base = soff - lo * stride
       def rd():
@@ -895,7 +896,7 @@ class Compiler:
           adj = arr.lo if part[0] == "plus" else arr.lo + nel - 1
           pfn = (f, adj, ew, arr.width)
 
-    static = not udyn and not pdyn and pfn is None
+    static = not udyn and not pdyn and pfn is None and not self.nofast
     whole = static and soff == 0 and width == sym.width
 
     def put(k, msk, vs):
@@ -1582,6 +1583,8 @@ class Simulator:
       readers = dst.readers
       inq = self.inq; qappend = self.queue.append
       und = src.undriven
+      if und is not None and not any(und[so:so + n]):
+        und = None
       ur = self.undriven_reads; sname = src.path
       def run():
         if und is not None:
